@@ -117,6 +117,15 @@ def check_areas(frame: Frame, features: list[dict], entries: list[dict]) -> list
         if ident not in wanted:
             bad("area-drawn-belongs-to-region", area_kind=ident[0], product=ident[1], entries=found[0])
     # --- completeness, extents, cores ----------------------------------------------------------
+    # features that cannot be told apart by kind and name (the same stretch found by a rule and handed in from outside
+    # under one product name): as many units as features, paired in the order of their extents
+    twins: dict = collections.defaultdict(list)
+    for feat in features:
+        twins[(feat["kind"], feat["product"])].append(feat)
+    position_of = {}
+    for ident, same in twins.items():
+        for k, feat in enumerate(sorted(same, key=lambda f: (list(f["extent"]), list(f["core"]) if f["core"] else []))):
+            position_of[id(feat)] = k
     for feat in features:
         ident = (feat["kind"], feat["product"])
         ffacts = {"area_kind": feat["kind"], "product": feat["product"], "feature_extent": list(feat["extent"]),
@@ -125,10 +134,10 @@ def check_areas(frame: Frame, features: list[dict], entries: list[dict]) -> list
                   "sideloaded": feat.get("sideloaded", False),
                   "origin_side_test_mismatch": feat.get("side_test_mismatch", False)}
         found = by_id.get(ident, [])
-        if len(found) != 1:
-            bad("area-drawn-exactly-once", times=len(found), **ffacts)
+        if len(found) != len(twins[ident]):
+            bad("area-drawn-exactly-once", times=len(found), features_of_this_name=len(twins[ident]), **ffacts)
             continue
-        unit = found[0]
+        unit = sorted(found, key=lambda u: sorted(extent_of(e) for e in u))[position_of[id(feat)]]
         expected = frame.image(feat["extent"][0], feat["extent"][1], feat["bridging"])
         if expected is None:
             # not one stretch of the region: nothing to compare the extent with; the range clause still decides
